@@ -222,6 +222,45 @@ func (m *callerMem) snapshot() {
 	m.boolSnap = [4]int8{optBoolVal(o.DedupValue), optBoolVal(o.InnerPrefix), optBoolVal(o.LeafPrefix), optBoolVal(o.Complete)}
 }
 
+// recycle overwrites everything the caller owns: the record buffer of []byte
+// values, every element of the value slice (zero value / overwritten bytes),
+// every key (replaced by another string), the option slice and the bools its
+// pointers point to.
+func (m *callerMem) recycle(r *Rng, pattern string) {
+	if len(m.arena) > 0 {
+		scribble(m.arena, 0, len(m.arena), pattern, r, nil)
+	}
+	if m.vals != nil {
+		v := fullSlice(m.vals)
+		zero := reflect.Zero(v.Type().Elem())
+		for i := 0; i < v.Len(); i++ {
+			e := v.Index(i)
+			if e.Kind() == reflect.Slice {
+				continue // element storage already overwritten through the record buffer; keep the headers (a caller reusing its buffer does)
+			}
+			if e.Kind() == reflect.String {
+				e.SetString("recycled")
+				continue
+			}
+			e.Set(zero)
+		}
+	}
+	all := m.keys[:cap(m.keys)]
+	for i := range all {
+		all[i] = "\x00recycled-key"
+	}
+	for _, o := range m.opts[:cap(m.opts)] {
+		for _, p := range []*bool{o.DedupValue, o.InnerPrefix, o.LeafPrefix, o.Complete} {
+			if p != nil {
+				*p = !*p
+			}
+		}
+	}
+	for i := range m.opts[:cap(m.opts)] {
+		m.opts[:cap(m.opts)][i] = trie.Opt{}
+	}
+}
+
 // cost: bytes compared by one evaluation of check().
 func (m *callerMem) cost() int64 {
 	c := int64(len(m.arena)) + 64*int64(cap(m.keys))
@@ -361,6 +400,39 @@ func executeC20(scn *Scenario) *RunResult {
 			}
 			if bad := m.check(); bad != "" {
 				fail("caller-memory-modified", "reads-after-build", fmt.Sprintf("after reading from the trie built on %s: %s", c.id(), bad), "", "", 0)
+			}
+		}
+		// "... nor alias": once the trie is built the caller recycles everything
+		// it passed in (keys slice, values and the record buffer they are cut
+		// from, option slice and the bools it points to). A twin built from
+		// private copies of the same input gives the reference answers.
+		if viol == nil && st != nil && err == nil {
+			m2 := newCallerMem(c.Spec)
+			var twin *trie.SlimTrie
+			var terr error
+			func() {
+				defer func() {
+					if r := recover(); r != nil {
+						terr = fmt.Errorf("panic: %v", r)
+					}
+				}()
+				twin, terr = trie.NewSlimTrie(encoderOf(c.Spec.Enc), m2.keys, m2.vals, m2.opts...)
+			}()
+			if terr == nil && twin != nil {
+				refs, _ := soloRefs(twin, c.Readers)
+				refBytes, _ := safeMarshal(twin)
+				m.recycle(NewRng(scn.RunSeed^0xb11d), c.Pattern)
+				res.Counters["fault.build_inputs_recycled_after_build"]++
+				post, _ := soloRefs(st, c.Readers)
+				for k, r := range refs {
+					if post[k].out != r.out {
+						fail("answers-changed-after-build-input-overwritten", "unit", fmt.Sprintf("build %s: after the caller overwrote the keys, values and options it had passed to NewSlimTrie (%s), %s differs from a twin built from private copies of the same input", c.id(), c.Pattern, clip(k, 60)), r.out, post[k].out, 0)
+						break
+					}
+				}
+				if b, _ := safeMarshal(st); viol == nil && !bytes.Equal(b, refBytes) {
+					fail("answers-changed-after-build-input-overwritten", "Marshal", fmt.Sprintf("build %s: after the caller overwrote what it had passed to NewSlimTrie (%s), Marshal() differs from the twin's", c.id(), c.Pattern), digest(refBytes), digest(b), 0)
+				}
 			}
 		}
 		res.Steps = yieldsInside
